@@ -102,17 +102,22 @@ FlatOf(fs) == FlattenSeq([f \in DOMAIN fs |-> fs[f].defs])
 BaseDefs(F) == FlatOf(F.files)
 \* pairs (position in the base order) whose relative order is part of the input
 MustKeep(F) == LET base == BaseDefs(F) IN {<<i, j>> \in (DOMAIN base) \X (DOMAIN base) : i < j /\ DefConflict(F, base[i], base[j])}
-Admissible(F, fs) ==
-  LET base == BaseDefs(F)
-      sq == FlatOf(fs)
+AdmissibleK(base, mk, fs) ==
+  LET sq == FlatOf(fs)
   IN /\ Len(sq) = Len(base) /\ ToSet(sq) = ToSet(base)
-     /\ \A pr \in MustKeep(F) : IdxOf(sq, base[pr[1]]) < IdxOf(sq, base[pr[2]])
+     /\ \A pr \in mk : IdxOf(sq, base[pr[1]]) < IdxOf(sq, base[pr[2]])
+Admissible(F, fs) == AdmissibleK(BaseDefs(F), MustKeep(F), fs)
 \* every presentation of the same set of definitions: files in any order, the definitions of a file in any order
-InPerms(F) == LET all == UNION {PermsOf(ToSet(F.files[f].defs)) : f \in DOMAIN F.files}
-              IN {g \in [DOMAIN F.files -> all] : \A f \in DOMAIN F.files : ToSet(g[f]) = ToSet(F.files[f].defs) /\ Len(g[f]) = Len(F.files[f].defs)}
-Presentations(F) ==
-  {fs \in {[k \in DOMAIN fo |-> [syn |-> F.files[fo[k]].syn, src |-> fo[k], defs |-> g[fo[k]]]] : fo \in PermsOf(DOMAIN F.files), g \in InPerms(F)} :
-      Admissible(F, fs)}
+\* (the definitions of one file in every order that keeps the pairs of MustKeep; then every order of the files)
+InFileOK(base, mk, pm) ==
+   \A pr \in mk : (\E i, j \in DOMAIN pm : pm[i] = base[pr[1]] /\ pm[j] = base[pr[2]]) => IdxOf(pm, base[pr[1]]) < IdxOf(pm, base[pr[2]])
+RECURSIVE InPermsRec(_, _, _, _)
+InPermsRec(F, base, mk, k) == IF k = 0 THEN {<<>>}
+                              ELSE {Append(g, pm) : g \in InPermsRec(F, base, mk, k - 1), pm \in {q \in PermsOf(ToSet(F.files[k].defs)) : InFileOK(base, mk, q)}}
+PresentationsK(F, base, mk) ==
+  {fs \in {[k \in DOMAIN fo |-> [syn |-> F.files[fo[k]].syn, src |-> fo[k], defs |-> g[fo[k]]]] : fo \in PermsOf(DOMAIN F.files), g \in InPermsRec(F, base, mk, Len(F.files))} :
+      AdmissibleK(base, mk, fs)}
+Presentations(F) == PresentationsK(F, TLCEval(BaseDefs(F)), TLCEval(MustKeep(F)))
 BasePresentation(F) == [k \in DOMAIN F.files |-> [syn |-> F.files[k].syn, src |-> k, defs |-> F.files[k].defs]]
 
 (* ------------------------------------------------------------------ *)
